@@ -56,6 +56,9 @@ def digest(arr):
     return h.hexdigest()[:12]
 
 
+WITH_DATA = [True]
+
+
 def data_obs(c):
     """(shape, digest) of a construct's data; the digest is 'ERR:<class>' when the data
     cannot be brought into memory."""
@@ -64,6 +67,8 @@ def data_obs(c):
             return None
     except AttributeError:
         return None
+    if not WITH_DATA[0]:
+        return [list(c.data.shape), "unread"]
     try:
         d = c.data
         return [list(d.shape), digest(d.array)]
@@ -88,9 +93,15 @@ def axis_names(f):
     return names
 
 
-def field_obs(f):
-    ax = axis_names(f)
+def field_obs(f, full=True):
     out = {"ncvar": f.nc_get_variable(None), "type": f.__class__.__name__}
+    # a variable that became a field only because the fault orphaned it: its structure is
+    # recorded, its data are not read (a scalar char variable raises inside netCDF4 and the
+    # next open can bring HDF5 down)
+    WITH_DATA[0] = bool(full)
+    if not full:
+        out["extra"] = True
+    ax = axis_names(f)
     out["data"] = data_obs(f) if hasattr(f, "get_data") else None
     out["data_axes"] = [ax.get(a, a) for a in (f.get_data_axes(default=()) if hasattr(f, "get_data") else ())]
     out["axes"] = sorted(ax.values())
@@ -161,7 +172,7 @@ def field_obs(f):
     return out
 
 
-def read_obs(path):
+def read_obs(path, only=None):
     row = {"exc": None, "msg": None, "fields": None}
     try:
         fs = cfdm.read(path, warnings=False)
@@ -175,7 +186,7 @@ def read_obs(path):
         return row
     row["open_after_read"] = open_fds(path)
     try:
-        row["fields"] = [field_obs(f) for f in fs]
+        row["fields"] = [field_obs(f, only is None or f.nc_get_variable(None) in only) for f in fs]
     except BaseException as e:  # noqa
         row["exc"] = "OBS:" + type(e).__name__
         row["msg"] = str(e)[:300]
@@ -312,7 +323,7 @@ def run_fault_case(case, scratch, wdir):
             nc.close()
         if case.get("want_raw"):
             row["raw"] = raw_content(dst)
-        row["read"] = read_obs(dst)
+        row["read"] = read_obs(dst, case.get("base_fields"))
     except BaseException as e:  # noqa
         row["error"] = f"{type(e).__name__}: {e}"[:400]
     try:
